@@ -30,6 +30,7 @@ from .exceptions import UnknownFilterError
 from .output import LimitedStringIO
 from .undefined import UNDEFINED
 from .utils import ReadOnlyChainMap
+from .limits import to_str
 
 if TYPE_CHECKING:
     from liquid2 import TokenT
@@ -131,7 +132,8 @@ class RenderContext:
             obj = self.scope[root]
         except (KeyError, TypeError, IndexError):
             if default == UNDEFINED:
-                hint = f"{root!r} is undefined"
+                name = repr(root) if isinstance(root, str) else to_str(root)
+                hint = f"{name} is undefined"
                 return self.env.undefined(root, hint=hint, token=token)
             return default
 
@@ -166,7 +168,8 @@ class RenderContext:
             obj = self.scope[root]
         except (KeyError, TypeError, IndexError):
             if default == UNDEFINED:
-                hint = f"{root!r} is undefined"
+                name = repr(root) if isinstance(root, str) else to_str(root)
+                hint = f"{name} is undefined"
                 return self.env.undefined(root, hint=hint, token=token)
             return default
 
@@ -475,7 +478,7 @@ class BuiltIn(Mapping[str, object]):
             return datetime.datetime.now()
         if key == "today":
             return datetime.date.today()
-        raise KeyError(str(key))
+        raise KeyError(key)
 
     def __len__(self) -> int:
         return 2
